@@ -63,7 +63,8 @@ Proof. induction l as [|y l IH]; [reflexivity|]. cbn [map fold_left]. rewrite <-
 Lemma gex_wstep u s s' es ms g : wstep s = (s', es, ms) -> fold_left (gex_ev u ThW) es g = g.
 Proof.
   unfold wstep. destruct (wpc_ s) as [|pc x r adv|adv|adv].
-  - intros H; inversion H; subst. rewrite fold_left_app, gex_wqget. gsame.
+  - intros H; injection H as <- <- <-. rewrite !fold_left_app, gex_wqget.
+    destruct (Nat.ltb (length (firstn bulk (wq s))) bulk); cbn [fold_left]; unfold ev; rewrite ?gex_other by reflexivity; reflexivity.
   - destruct pc; split_match; intros H; inversion H; subst; try destruct (tasks s x); gsame.
   - intros H; inversion H; subst; reflexivity.
   - intros H; inversion H; subst; reflexivity.
